@@ -1,6 +1,7 @@
 package lexgen
 
 import (
+	"context"
 	stderrors "errors"
 	"fmt"
 	"strings"
@@ -246,4 +247,91 @@ func TokenizeShared(text string) Run {
 		r.Code, r.Loc, _ = ErrInfo(err)
 	}
 	return r
+}
+
+var sharedCtx *tokenizer.Tokenizer
+
+// TokenizeContextShared is TokenizeShared through the second documented entry point,
+// Tokenizer.TokenizeContext (its loop is a copy of Tokenize's, so it is observed separately).
+func TokenizeContextShared(text string) Run {
+	if sharedCtx == nil {
+		tk, err := tokenizer.New()
+		if err != nil {
+			return Run{Err: err}
+		}
+		sharedCtx = tk
+	}
+	return runCtx(sharedCtx, text)
+}
+
+// TokenizeContext runs TokenizeContext on a fresh instance.
+func TokenizeContext(text string) Run {
+	tk, err := tokenizer.New()
+	if err != nil {
+		return Run{Err: err}
+	}
+	return runCtx(tk, text)
+}
+
+func runCtx(tk *tokenizer.Tokenizer, text string) Run {
+	toks, err := tk.TokenizeContext(context.Background(), []byte(text))
+	r := Run{Toks: toks, Err: err}
+	r.Comments = append(r.Comments, tk.Comments...)
+	if err != nil {
+		r.Code, r.Loc, _ = ErrInfo(err)
+	}
+	return r
+}
+
+// SameRun reports whether two runs observed the same thing (tokens with kinds, values,
+// quotes and spans; comments; error code and location).
+func SameRun(a, b Run) bool {
+	if (a.Err == nil) != (b.Err == nil) || a.Code != b.Code || a.Loc != b.Loc || len(a.Toks) != len(b.Toks) || len(a.Comments) != len(b.Comments) {
+		return false
+	}
+	for i := range a.Toks {
+		x, y := a.Toks[i], b.Toks[i]
+		if x.Start != y.Start || x.End != y.End || x.Token.Type != y.Token.Type || x.Token.Value != y.Token.Value || x.Token.Quote != y.Token.Quote {
+			return false
+		}
+	}
+	for i := range a.Comments {
+		if a.Comments[i] != b.Comments[i] {
+			return false
+		}
+	}
+	return true
+}
+
+// FromRef turns an arbitrary text and the reference lexer's reading of it into an Input
+// with the same bookkeeping as a generated one (items, gaps), so that the oracles written
+// for generated inputs apply to it.
+func FromRef(text string, r RefResult) *Input {
+	b := NewBuilder()
+	ti, ci, pos := 0, 0, 0
+	for ti < len(r.Toks) || ci < len(r.Comments) {
+		if ci < len(r.Comments) && (ti >= len(r.Toks) || r.Comments[ci].Off < r.Toks[ti].Off) {
+			c := r.Comments[ci]
+			ci++
+			end := c.End
+			if c.Line && strings.HasSuffix(c.Text, "\r") {
+				end-- // keep the \r of a CRLF terminator out of the comment, as the generator does
+			}
+			b.Space(text[pos:c.Off])
+			b.Comment(text[c.Off:end], c.Line)
+			pos = end
+			continue
+		}
+		t := r.Toks[ti]
+		ti++
+		if t.Off > pos {
+			b.Space(text[pos:t.Off])
+			b.gapNames = append(b.gapNames, "ws")
+		}
+		l := &Lexeme{Name: t.Sig(), Sig: t.Sig(), Class: t.Class, Text: text[t.Off:t.End], Exp: t.Exp, Fold: t.Fold}
+		b.Lex(l)
+		pos = t.End
+	}
+	b.Space(text[pos:])
+	return b.Input()
 }
